@@ -12,8 +12,8 @@ CONSTANTS
   PendingIsWouldBlock = TRUE
   MidResumes = TRUE
   FinalFlush = TRUE
-  FixNativeClose = FALSE
+  CloseFlushes = TRUE
   FixRustlsHsFlush = FALSE
 SPECIFICATION Spec
-INVARIANTS TypeOK NoDeadlock NoWaitOnUnflushed NoFailure InOrderExactlyOnce CleanClose NoBufferedDataDropped HandshakeAgreement
+INVARIANTS TypeOK NativeClean NoDeadlock NoWaitOnUnflushed NoFailure InOrderExactlyOnce CleanClose NoBufferedDataDropped HandshakeAgreement
 PROPERTIES Progress
